@@ -237,10 +237,14 @@ class Vector():
 			return Vector._hash_element(tuple(rep))
 
 		if isinstance(x, (list, tuple)):
-			h = 0
+			# Seed with the length and scramble the result: a bare polynomial is linear, so
+			# (0, 1), (1,) and 1 - and ((1, 2), 3), (1, 2, 3) and (1, 2, (3,)) - hashed alike
+			# and replacing one by another went unnoticed
+			h = len(x) + 1
 			for elem in x:
 				h = (h * B + Vector._hash_element(elem)) % P
-			return h
+			h ^= h >> 31
+			return (h * 0x9E3779B97F4A7C15 + 0x51ED270B) % P
 
 		if _is_hashable(x):
 			return hash(x)
